@@ -182,7 +182,7 @@ type ReverseInnerSearcher struct {
 	// the search start to the end of the haystack, so Find needs no scan. With the
 	// default dot the wildcards stop at '\n' and the span has to be searched.
 	universalSpan bool
-	// prefixNullable is true when the prefix is .* (or empty): it matches the
+	// prefixNullable is true when the prefix can match the empty string: it matches the
 	// empty string, so a candidate right at the search start needs no reverse
 	// scan. (.+ is "universal" but not nullable.)
 	prefixNullable bool
@@ -311,7 +311,7 @@ func NewReverseInnerSearcher(
 		universalPrefix: universalPrefix,
 		universalSuffix: universalSuffix,
 		universalSpan:   isDotAllStar(innerInfo.PrefixAST) && isLiteralThenDotAllStar(innerInfo.SuffixAST),
-		prefixNullable:  universalPrefix && innerInfo.PrefixAST.Op != syntax.OpPlus,
+		prefixNullable:  canMatchEmpty(innerInfo.PrefixAST),
 		startAnchored:   startAnchored,
 	}
 	s.fwdCachePool = sync.Pool{
@@ -416,6 +416,11 @@ func (s *ReverseInnerSearcher) Find(haystack []byte) *Match {
 		// Check if we can reach this inner literal from an earlier position.
 		// Use minMatchStart to avoid re-scanning regions already proven to have no match.
 		matchStart := s.reverseDFA.SearchReverseLimited(revCache, haystack, 0, pos, minMatchStart)
+		if pos == 0 && s.prefixNullable {
+			// The candidate stands at the very start: there is nothing to scan
+			// backwards, and a prefix that can match the empty string matches here.
+			matchStart = 0
+		}
 		if matchStart == lazy.SearchReverseLimitedQuadratic {
 			// Reverse scan hit the anti-quadratic guard - fall back to PikeVM
 			start, end, found := s.pikevm.Search(haystack)
@@ -601,6 +606,11 @@ func (s *ReverseInnerSearcher) findIndicesAtImpl(haystack []byte, at int, fwdCac
 		// Step 1: Reverse search on PREFIX portion with anti-quadratic guard
 		// Use minMatchStart to avoid re-scanning regions already checked
 		matchStart := s.reverseDFA.SearchReverseLimited(revCache, haystack, at, pos, minMatchStart)
+		if pos == at && s.prefixNullable {
+			// Candidate at the search start: nothing to scan backwards; a prefix
+			// that can match the empty string matches here.
+			matchStart = at
+		}
 		if matchStart == lazy.SearchReverseLimitedQuadratic {
 			// Quadratic behavior detected - fall back to PikeVM
 			return s.pikevm.SearchAt(haystack, at)
